@@ -1664,6 +1664,21 @@ def COp.keepsCapacity : COp → Bool
   | .setcap _ => false
   | _ => true
 
+theorem churnLoop_wf (D : Defects) (k : Nat) (m : Mem) (i ev : Nat) (h : WF m.cache) :
+    WF (m.churnLoop D k i ev).1.cache := by
+  induction k generalizing m i ev with
+  | zero => exact h
+  | succ k ih =>
+    unfold Mem.churnLoop
+    simp only []
+    have hi := insert_wf D ({ m with nextFid := m.nextFid + 1 } : Mem).free m.cache
+      { page := churnBase + i % 2, fid := m.nextFid, val := 0, dirty := false } h
+    split <;> (rename_i heq; rw [heq] at hi)
+    · exact hi
+    · apply ih; rw [(park_same _ _).1]; exact hi
+    · apply ih; exact hi
+    · apply ih; exact hi
+
 theorem cstep_wf (D : Defects) (m : Mem) (op : COp) (hop : op.keepsCapacity = true) (h : WF m.cache) :
     WF (m.cstep D op).1.cache := by
   cases op with
@@ -1730,6 +1745,7 @@ theorem cstep_wf (D : Defects) (m : Mem) (op : COp) (hop : op.keepsCapacity = tr
     exact empty_wf _ _
   | setcap n => cases hop
   | stat => exact h
+  | churn n => exact churnLoop_wf D n m 0 0 h
 
 theorem crun_wf (D : Defects) (m : Mem) (ops : List COp) (hops : ∀ op ∈ ops, op.keepsCapacity = true)
     (h : WF m.cache) : WF (m.crun D ops).1.cache := by
@@ -1739,6 +1755,208 @@ theorem crun_wf (D : Defects) (m : Mem) (ops : List COp) (hops : ∀ op ∈ ops,
     exact ih (m.cstep D op).1 (fun o ho => hops o (List.mem_cons_of_mem _ ho))
       (cstep_wf D m op (hops op List.mem_cons_self) h)
 
+
+
+
+/-! ### capacity along a run; out-of-memory excluded by a pin bound; adaptive clients -/
+
+theorem evict_capacity (D : Defects) (free : Frame → Bool) (c : Cache) : (c.evict D free).1.capacity = c.capacity := by
+  have hs := evict_spec D free c
+  cases he : c.evict D free with
+  | mk c' r =>
+    rw [he] at hs
+    cases r with
+    | empty => exact congrArg Cache.capacity hs.1
+    | oom => exact hs.2
+    | victim v => exact hs.2.2
+
+theorem insert_capacity (D : Defects) (free : Frame → Bool) (c : Cache) (f : Frame) :
+    (c.insert D free f).1.capacity = c.capacity := by
+  unfold Cache.insert
+  split
+  · rfl
+  · split
+    · have := evict_capacity D free c
+      split <;> (rename_i heq; rw [heq] at this; exact this)
+    · rfl
+
+theorem cacheFrame_capacity (D : Defects) (s : Pager) (f : Frame) :
+    (s.cacheFrame D f).1.mem.cache.capacity = s.mem.cache.capacity ∧ (s.cacheFrame D f).1.cfgCache = s.cfgCache := by
+  constructor
+  · rw [cacheFrame_cache]; exact insert_capacity D _ _ f
+  · unfold Pager.cacheFrame
+    split
+    · rfl
+    · rfl
+    · rfl
+    · simp only []; split <;> rfl
+
+theorem cacheFrame_capacity' {D : Defects} {s s' : Pager} {f : Frame} {b : Bool} (h : s.cacheFrame D f = (s', b)) :
+    s'.mem.cache.capacity = s.mem.cache.capacity ∧ s'.cfgCache = s.cfgCache := by
+  have := cacheFrame_capacity D s f
+  rw [h] at this
+  exact this
+
+theorem readPage_capacity (D : Defects) (s : Pager) (p : Nat) :
+    (s.readPage D p).1.mem.cache.capacity = s.mem.cache.capacity ∧ (s.readPage D p).1.cfgCache = s.cfgCache := by
+  unfold Pager.readPage
+  split
+  · exact ⟨rfl, rfl⟩
+  · split
+    · exact ⟨rfl, rfl⟩
+    · split
+      · exact ⟨rfl, rfl⟩
+      · simp only []
+        split <;> (rename_i s' hcf; have hc := cacheFrame_capacity' hcf; exact hc)
+
+/-- the capacity the cache runs with: as configured, or as read back from page zero after a re-open -/
+def CapOk (cap : Nat) (s : Pager) : Prop := s.cfgCache = cap ∧ min cap 65535 ≤ s.mem.cache.capacity
+
+theorem flush_capacity (s : Pager) :
+    (s.flush Defects.none).mem.cache.capacity = s.mem.cache.capacity ∧ (s.flush Defects.none).cfgCache = s.cfgCache := by
+  have hps := parkAll_same ({ s.mem with cache := (s.mem.cache.clear Defects.none).1 }) (s.mem.cache.clear Defects.none).2
+  have hcache : (s.flush Defects.none).mem.cache = (s.mem.cache.clear Defects.none).1 := hps.1
+  exact ⟨by rw [hcache]; rfl, rfl⟩
+
+theorem step_capOk (cap : Nat) (s : Pager) (op : POp) (h : CapOk cap s) : CapOk cap (s.step Defects.none op).1 := by
+  obtain ⟨h1, h2⟩ := h
+  cases op with
+  | alloc =>
+    simp only [Pager.step]
+    split <;>
+      (rename_i s' hcf
+       have hc := cacheFrame_capacity' hcf
+       exact ⟨hc.2.trans h1, by rw [show s'.mem.cache.capacity = s.mem.cache.capacity from hc.1]; exact h2⟩)
+  | read p =>
+    have hc := readPage_capacity Defects.none s p
+    simp only [Pager.step]
+    split
+    · exact ⟨h1, h2⟩
+    · split <;> (rename_i heq; rw [heq] at hc; exact ⟨hc.2.trans h1, Nat.le_trans h2 (Nat.le_of_eq hc.1.symm)⟩)
+  | write p v =>
+    have hc := readPage_capacity Defects.none s p
+    simp only [Pager.step]
+    split
+    · exact ⟨h1, h2⟩
+    · split <;> (rename_i heq; rw [heq] at hc; exact ⟨hc.2.trans h1, Nat.le_trans h2 (Nat.le_of_eq hc.1.symm)⟩)
+  | pin p =>
+    have hc := readPage_capacity Defects.none s p
+    simp only [Pager.step]
+    split
+    · exact ⟨h1, h2⟩
+    · split <;> (rename_i heq; rw [heq] at hc; exact ⟨hc.2.trans h1, Nat.le_trans h2 (Nat.le_of_eq hc.1.symm)⟩)
+  | unpin k => simp only [Pager.step]; split <;> exact ⟨h1, h2⟩
+  | hread k =>
+    simp only [Pager.step]
+    split
+    · split <;> exact ⟨h1, h2⟩
+    · exact ⟨h1, h2⟩
+  | hwrite k v => simp only [Pager.step]; split <;> exact ⟨h1, h2⟩
+  | flush =>
+    have hc := flush_capacity s
+    exact ⟨hc.2.trans h1, Nat.le_trans h2 (Nat.le_of_eq hc.1.symm)⟩
+  | reopen =>
+    have hc := flush_capacity s
+    refine ⟨hc.2.trans h1, ?_⟩
+    show min cap 65535 ≤ headerCacheSize Defects.none (s.flush Defects.none).cfgCache
+    rw [hc.2, h1]
+    exact Nat.le_refl _
+  | disk p =>
+    simp only [Pager.step]
+    split
+    · exact ⟨h1, h2⟩
+    · split <;> exact ⟨h1, h2⟩
+
+/-- With the fixed code, an operation cannot run out of memory while fewer frames are pinned than the cache holds. -/
+theorem no_oom_of_pin_bound (cap : Nat) (s : Pager) (sp : Spec) (op : POp) (hC : Coupled s sp) (hcap : CapOk cap s)
+    (hb : sp.pins.length < min cap 65535) : (s.step Defects.none op).2 ≠ .oom := by
+  intro h
+  have := allPinned_handles hC.inv.fids (step_oom Defects.none rfl s op h)
+  have hl : sp.pins.length = s.mem.handles.length := by rw [hC.pins, List.length_map]
+  have := hcap.2
+  omega
+
+
+
+/-- A storage client: anything that decides its next pager operation from the answers it has received so far — the
+    B+tree code, the catalog, the executor: every deterministic single-threaded user of the pager is one. `none` = done. -/
+abbrev Client := List Out → Option POp
+
+/-- the client talking to the pager (at most `fuel` operations); the result is the dialogue -/
+def Pager.interact (D : Defects) (client : Client) : Nat → Pager → List Out → List (POp × Out)
+  | 0, _, _ => []
+  | n + 1, s, hist =>
+    match client hist with
+    | none => []
+    | some op => (op, (s.step D op).2) :: Pager.interact D client n (s.step D op).1 (hist ++ [(s.step D op).2])
+
+/-- the same client talking to the flat store -/
+def Spec.interact (client : Client) : Nat → Spec → List Out → List (POp × Out)
+  | 0, _, _ => []
+  | n + 1, sp, hist =>
+    match client hist with
+    | none => []
+    | some op => (op, (sp.step op).2) :: Spec.interact client n (sp.step op).1 (hist ++ [(sp.step op).2])
+
+/-- What is asked of the client, checked on its dialogue with the flat store alone: it never looks at the file behind
+    the pager's back, it checkpoints only while it holds no frame, and it never holds `bound` frames or more at once. -/
+def Spec.clientOk (bound : Nat) (client : Client) : Nat → Spec → List Out → Bool
+  | 0, _, _ => true
+  | n + 1, sp, hist =>
+    match client hist with
+    | none => true
+    | some op =>
+      !op.isDisk && (!op.isCheckpoint || sp.pins.isEmpty) && decide (sp.pins.length < bound) &&
+        Spec.clientOk bound client n (sp.step op).1 (hist ++ [(sp.step op).2])
+
+theorem interact_refines (cap bound : Nat) (hb : bound ≤ min cap 65535) (client : Client) (n : Nat) (s : Pager)
+    (sp : Spec) (hist : List Out) (hC : Coupled s sp) (hcap : CapOk cap s)
+    (hok : Spec.clientOk bound client n sp hist = true) :
+    Pager.interact Defects.none client n s hist = Spec.interact client n sp hist := by
+  induction n generalizing s sp hist with
+  | zero => rfl
+  | succ n ih =>
+    unfold Pager.interact Spec.interact
+    unfold Spec.clientOk at hok
+    cases hc : client hist with
+    | none => rfl
+    | some op =>
+      simp only [hc, Bool.and_eq_true, decide_eq_true_eq] at hok
+      obtain ⟨⟨⟨hnd, hadm⟩, hpins⟩, hrest⟩ := hok
+      have hnd' : op.isDisk = false := by simpa using hnd
+      have hnoom := no_oom_of_pin_bound cap s sp op hC hcap (Nat.lt_of_lt_of_le hpins hb)
+      have hstep := step_coupled Defects.none s sp op hC hnoom hadm
+      have hout : (s.step Defects.none op).2 = (sp.step op).2 := hstep.2 hnd'
+      simp only []
+      rw [hout]
+      congr 1
+      exact ih (s.step Defects.none op).1 (sp.step op).1 _ hstep.1 (step_capOk cap s op hcap) hrest
+
+
+/-- the same for a fixed operation list: fewer than `bound` frames pinned before every operation -/
+def Spec.pinBounded (bound : Nat) : Spec → List POp → Bool
+  | _, [] => true
+  | sp, op :: ops => decide (sp.pins.length < bound) && Spec.pinBounded bound (sp.step op).1 ops
+
+theorem run_no_oom (cap bound : Nat) (hb : bound ≤ min cap 65535) (ops : List POp) (s : Pager) (sp : Spec)
+    (hC : Coupled s sp) (hcap : CapOk cap s) (hadm : sp.admissible ops = true)
+    (hpins : Spec.pinBounded bound sp ops = true) : ∀ o ∈ (s.run Defects.none ops).2, o ≠ .oom := by
+  induction ops generalizing s sp with
+  | nil => intro o ho; cases ho
+  | cons op ops ih =>
+    simp only [Spec.admissible, Spec.pinBounded, Bool.and_eq_true, decide_eq_true_eq] at hadm hpins
+    have hrun : s.run Defects.none (op :: ops) =
+        (((s.step Defects.none op).1.run Defects.none ops).1,
+          (s.step Defects.none op).2 :: ((s.step Defects.none op).1.run Defects.none ops).2) := rfl
+    rw [hrun]
+    have hno := no_oom_of_pin_bound cap s sp op hC hcap (Nat.lt_of_lt_of_le hpins.1 hb)
+    have hstep := step_coupled Defects.none s sp op hC hno hadm.1
+    intro o ho
+    rcases List.mem_cons.mp ho with rfl | ho
+    · exact hno
+    · exact ih (s.step Defects.none op).1 (sp.step op).1 hstep.1 (step_capOk cap s op hcap) hadm.2 hpins.2 o ho
+
+theorem init_capOk (cap : Nat) : CapOk cap (Pager.init cap) := ⟨rfl, Nat.min_le_left _ _⟩
 
 end AxVerif.Cache
 
